@@ -215,7 +215,8 @@ def var_graph_case(n, edges, names=None):
     p["recipes"][0]["subs"] = []
     p["recipes"][0]["priors"] = []
     if has_cycle(n, edges):
-        return p, {"verdict": "reject", "kind": "circularVariable", "offender": [names[i] for i in cyclic_nodes(n, edges)]}
+        return p, {"verdict": "reject", "kind": "circularVariable", "offender": [names[i] for i in cyclic_nodes(n, edges)],
+                   "edges": [(names[a], names[b]) for a, b in edges]}
     return p, {"verdict": "accept"}
 
 
@@ -229,7 +230,8 @@ def recipe_graph_case(n, edges):
                              "subs": [{"target": "g%d" % j, "args": []} for j in out[1:]],
                              "body": [line("[G%d]" % i)], "script": False})
     if has_cycle(n, edges):
-        return p, {"verdict": "reject", "kind": "circularRecipe", "offender": ["g%d" % i for i in cyclic_nodes(n, edges)]}
+        return p, {"verdict": "reject", "kind": "circularRecipe", "offender": ["g%d" % i for i in cyclic_nodes(n, edges)],
+                   "edges": [("g%d" % a, "g%d" % b) for a, b in edges]}
     return p, {"verdict": "accept"}
 
 
@@ -540,6 +542,15 @@ def run(report):
             if kind != exp["kind"] or off not in exp["offender"]:
                 report.failure("c03-wrong-offender:%s" % fam, "rejected, but the error does not name the offender: got %s `%s`" % (kind, off), replay)
                 continue
+            # the chain the message spells out must exist in the program: every step a declared dependency, and its last
+            # element a name met before (the assignment resolver prints the whole path that led into the cycle)
+            mc = re.search(r"(?:has circular dependency|depends on its own value:) `([^`]*)`", r["dump_err"])
+            if mc and exp.get("edges") is not None:
+                chain = mc.group(1).split(" -> ")
+                steps_ok = all((a, b) in exp["edges"] for a, b in zip(chain, chain[1:]))
+                if len(chain) < 2 or chain[-1] not in chain[:-1] or not steps_ok:
+                    report.failure("c03-wrong-cycle:%s" % fam, "rejected, but the cycle named in the message (%s) is not a cycle of the justfile" % mc.group(1), replay)
+                    continue
         elif exp["verdict"] == "accept":
             if rejected:
                 report.failure("c03-valid-rejected:%s" % fam, "a defect-free justfile was rejected: %s `%s`" % (kind, off), replay)
